@@ -45,6 +45,7 @@ type gor struct {
 	stack []*ssa.Function
 	timer *timerState // non-nil: a pending AfterFunc
 	waitsTimer bool   // blocked in a select with a live timer channel
+	watcher    bool   // parked in vapi.WaitStuck: not part of the program under test
 }
 
 type scheduler struct {
@@ -55,6 +56,8 @@ type scheduler struct {
 	preempts   int
 	maxPreempt int
 	timerLeft  int
+	stuck      bool // the timer budget ran out with every goroutine blocked (told to vapi.WaitStuck once)
+	watchers   int
 	fault      any
 	wg         sync.WaitGroup
 	nchoice    int
@@ -263,6 +266,11 @@ func (i *interpreter) blockUntil(ready func() bool, why string) {
 		cands := i.others(false)
 		if len(cands) == 0 {
 			i.deadlock()
+			cands = i.others(false) // a watcher was woken
+			if len(cands) == 0 {
+				i.raiseInMain(pathEnd{"timer budget exhausted"})
+				panic(goKill{})
+			}
 		}
 		k := i.delayChoice(len(cands))
 		g := cands[k]
@@ -281,6 +289,12 @@ func (i *interpreter) deadlock() {
 			continue
 		}
 		if g.waitsTimer || (g.timer != nil && !g.timer.fired && !g.timer.stopped) {
+			if s.watchers > 0 && !s.stuck {
+				// let the harness look at the state the program is stuck in
+				// (everything blocked, only ticks left) before the path ends
+				s.stuck = true
+				return
+			}
 			i.raiseInMain(pathEnd{"timer budget exhausted"})
 			panic(goKill{})
 		}
@@ -309,7 +323,10 @@ func (i *interpreter) goExit(me *gor) {
 	if len(cands) == 0 {
 		// nothing can run: main must be blocked
 		i.deadlock()
-		return
+		cands = i.others(false) // a watcher was woken
+		if len(cands) == 0 {
+			return
+		}
 	}
 	k := i.delayChoice(len(cands))
 	g := cands[k]
